@@ -750,4 +750,12 @@ def rule_i(ctx):
 
 
 
-RULES = [('C13.a', rule_a), ('C13.b', rule_b), ('C13.c', rule_c), ('C13.d', rule_d), ('C13.d+C13.e', rule_e), ('C13.f', rule_f), ('C13.g', rule_g), ('C12.l', rule_error_conversion), ('C13.h', rule_h), ('C13.i', rule_i)]
+
+def rule_j(ctx):
+    """C13.j (rules/c10.py): a live stream's id is released only together with a terminal frame."""
+    from .c10 import rule_release_needs_terminal
+    rule_release_needs_terminal(ctx, 'C13.j')
+
+
+
+RULES = [('C13.a', rule_a), ('C13.b', rule_b), ('C13.c', rule_c), ('C13.d', rule_d), ('C13.d+C13.e', rule_e), ('C13.f', rule_f), ('C13.g', rule_g), ('C12.l', rule_error_conversion), ('C13.h', rule_h), ('C13.i', rule_i), ('C13.j', rule_j)]
